@@ -750,6 +750,10 @@ def finalize(ck, pid):
                     rep, wit = algreplay.replay_group(rp['op'], rp['modes'], rp['case'], sd)
                     if rep:
                         break
+            elif rp and rp['kind'] == 'sqrt':
+                rep, wit = algreplay.replay_sqrt(rp['family'])
+            elif rp and rp['kind'] == 'wrap':
+                rep, wit = algreplay.replay_wrap(rp['entry'], rp['modes'])
             elif rp and rp['kind'] == 'tower':
                 envs = []
                 if getattr(o, 'cex', None):
@@ -997,6 +1001,16 @@ def run_parts(pid, parts, seed=0, thorough=False):
         elif part == 'consts':
             for pfx in ('g1', 'g2'):
                 check_zero_one(ck, leaves(pfx, pfx + '_zero_one').get(pfx + '_zero_one', []), pfx)
+        elif part == 'sqrt':
+            by = {}
+            for t in ('fq2_sqrt', 'fq2_sqrt_of_square', 'fq2_sqrt_of_real', 'fq2_sqrt_of_imag'):
+                by.update(leaves('fq2', t))
+            check_sqrt(ck, by)
+        elif part == 'wrappers':
+            by = {}
+            for e in ('pairing', 'fast', 'prepared'):
+                by.update(leaves('wrap', 'wrap_%s_*' % e))
+            check_wrappers(ck, by)
         elif part == 'normalize':
             by = leaves('wrap', 'wrap_g*')
             for pfx in ('g1', 'g2'):
@@ -1005,3 +1019,248 @@ def run_parts(pid, parts, seed=0, thorough=False):
             ck.fail('A-' + part, 'known part', 'unknown part', status='inconclusive')
     finalize(ck, pid)
     return ck
+
+
+def check_wrappers(ck, by):
+    """C03: the three pairing entry points see a point only through its affine coordinates (to_affine outputs,
+    verified under C15); an identity argument (z = 0, any x, y) gives the constant one; two uses of one prepared
+    value give the identical result"""
+    src = 'src/lib.rs + src/pairings.rs'
+    for entry in ('pairing', 'fast', 'prepared'):
+        for m in ('jj', 'oj', 'jo', 'aa', 'ja', 'aj'):
+            task = 'wrap_%s_%s' % (entry, m)
+            for lf in by.get(task, []):
+                nm = 'A-' + task
+                fn = {'pairing': 'pairing()', 'fast': 'fast_pairing()', 'prepared': 'G2Prepared::from + pairing'}[entry]
+                rp = dict(kind='wrap', entry=entry, modes=m)
+                if lf.panic:
+                    ck.fail(nm, fn + ': no panic', 'panic: ' + lf.panic, [src], replay=rp)
+                    continue
+                out = lf.out
+                res, res2, aff = out[0:12], out[12:24], out[24:]
+                dag = lf.dag
+                if res != res2:
+                    ck.fail(nm + '-reuse', fn + ': a prepared value gives the same result on every use', 'two calls produced different result expressions', [src], replay=rp)
+                ident = 'o' in m
+                if ident:
+                    const = all(dag.n[i][1] == 'const' for i in res)
+                    vals = [int(dag.n[i][2], 16) if dag.n[i][1] == 'const' else None for i in res]
+                    if const and vals == [1] + [0] * 11:
+                        ck.ok(nm, fn + ': identity argument (z = 0, arbitrary x, y) gives one', 'result is the constant one', [src])
+                    else:
+                        dep = sorted(set(dag.n[i][2] for i in dag.reach(res) if dag.n[i][1] == 'var'))
+                        ck.fail(nm, fn + ': identity argument (z = 0, arbitrary x, y) gives one', 'result is not the constant one; it depends on %s' % dep[:8], [src], replay=rp)
+                    continue
+                cut = set(aff)
+                reach = dag.reach(res, stop=cut)
+                raw = sorted(set(dag.n[i][2] for i in reach if dag.n[i][1] == 'var'))
+                if raw:
+                    ck.fail(nm, fn + ': result depends on P, Q only through their affine coordinates', 'result expression reaches raw Jacobian coordinates %s without passing through to_affine' % raw[:8], [src], replay=rp)
+                else:
+                    ck.ok(nm, fn + ': result depends on P, Q only through their affine coordinates', 'dependency analysis of the %d-node result DAG: every path to %s passes through the to_affine outputs' % (len(dag.n), 'X,Y,Z'), [src])
+
+
+# ------------------------------------------------------------------------------------------ C14: Fq2::sqrt
+def legendre(k):
+    k %= Q
+    if k == 0:
+        return 0
+    return 1 if pow(k, (Q - 1) // 2, Q) == 1 else -1
+
+
+def nsqrt(k):
+    """numeric square root mod q (q = 5 mod 8), None if k is a non-residue"""
+    k %= Q
+    if k == 0:
+        return 0
+    if legendre(k) != 1:
+        return None
+    r = pow(k, (Q + 3) // 8, Q)
+    if r * r % Q != k:
+        r = r * pow(2, (Q - 1) // 4, Q) % Q
+    return r if r * r % Q == k else None
+
+
+def decomp(p, atoms, maxe=4):
+    """p == k * prod atoms^e ?  -> (k, exps) or None"""
+    import itertools
+    if p.is_zero():
+        return (0, None)
+    if p.degree() == 0:
+        return (p.t[()], [0] * len(atoms))
+    for es in itertools.product(range(maxe + 1), repeat=len(atoms)):
+        if sum(e * a.degree() for e, a in zip(es, atoms)) != p.degree():
+            continue
+        t = Poly.const(1)
+        for a, e in zip(atoms, es):
+            for _ in range(e):
+                t = t * a
+        if unit_multiple(p, t):
+            m0 = next(iter(t.t))
+            return (p.t[m0] * pow(t.t[m0], -1, Q) % Q, list(es))
+    return None
+
+
+def sqrt_leaf_feasible(lf, atoms, chis_list, presubs=(None,)):
+    """presubs: parametrisations of the family variable by its square root (a = t^2, a = g t^2 with g a fixed
+    non-residue) so that roots of odd powers become expressible"""
+    last = (False, 'no assignment of characters / root signs satisfies the path condition')
+    for ps in presubs:
+        r = _sqrt_leaf_feasible(lf, atoms, chis_list, ps)
+        if r[0]:
+            return r[0], r[1] + (' [%s]' % ', '.join('%s = %r' % kv for kv in ps.items()) if ps else '')
+        if r[0] is None:
+            last = r
+    return last
+
+
+def _sqrt_leaf_feasible(lf, atoms, chis_list, presub):
+    """is the leaf's path condition satisfiable for generic non-zero atoms with some assignment of quadratic
+    characters and some choice of the roots returned by Fq::sqrt?  Returns (feasible?, explanation)"""
+    import itertools
+    dag = lf.dag
+    # witnesses in creation order
+    outs = lf.outs() if lf.out else []
+    decs = lf.pc
+    for chis in chis_list:
+        chi_of = dict(zip(range(len(atoms)), chis))
+        sqrt_nodes = [f for f in dag.facts if f[0] == 'sqrt']
+        # need the facts discovered: make sure all decision polys are computed first
+        for kind, a, b, o in decs:
+            dag.p(a), dag.p(b)
+        sqrt_nodes = [f for f in dag.facts if f[0] == 'sqrt']
+        for signs in itertools.product((1, -1), repeat=len(sqrt_nodes)):
+            sub = {}
+            ok = True
+            why = ''
+            if presub:
+                sub.update(presub)
+            for (kind_, name, arg, _), sg in zip(sqrt_nodes, signs):
+                argp = apply_sub(arg, sub)
+                d = decomp(argp, atoms)
+                if d is None or d[0] == 0:
+                    ok = False
+                    why = 'sqrt witness of a non-monomial quantity'
+                    break
+                k, es = d
+                # character of arg = chi(k) * prod chi(atom)^e ; must be +1 for a witness to exist
+                ch = legendre(k)
+                for i, e in enumerate(es):
+                    if e % 2:
+                        ch *= chi_of[i]
+                if ch != 1:
+                    ok = False
+                    why = 'witness of a non-square'
+                    break
+                # root = sg * sqrt(k * prod_{odd} g) * prod atoms^(e//2) * (prod_{odd} atom * g^-1 ...): only handle all-even exponents
+                if any(e % 2 for e in es):
+                    ok = False
+                    why = 'root of an odd power of an atom (not expressible)'
+                    break
+                r = Poly.const(nsqrt(k) * sg)
+                for a_, e in zip(atoms, es):
+                    for _ in range(e // 2):
+                        r = r * a_
+                sub[name] = r
+            if not ok:
+                continue
+            # inverse witnesses: 1/(k * prod atoms^e) is not polynomial: clear by treating inv#i as formal and checking decisions that mention it through cross-multiplication
+            good = True
+            for kind, a, b, o in decs:
+                pa, pb = apply_sub(dag.p(a), sub), apply_sub(dag.p(b), sub)
+                if kind == 'eq':
+                    diff = pa - pb
+                    for red in reduce_facts(diff, [f for f in dag.facts if f[0] == 'inv'], sub):
+                        pass
+                    reds = reduce_facts(diff, [f for f in dag.facts if f[0] == 'inv'], sub)
+                    zero = all(r.is_zero() for r in reds)
+                    if zero != o:
+                        good = False
+                        break
+                else:
+                    d = decomp(pa, atoms)
+                    if d is None:
+                        good = None
+                        break
+                    k, es = d
+                    if k == 0:
+                        good = False
+                        break
+                    ch = legendre(k)
+                    for i, e in enumerate(es):
+                        if e % 2:
+                            ch *= chi_of[i]
+                    if (ch == 1) != o:
+                        good = False
+                        break
+            if good:
+                return True, 'characters %s, root signs %s' % (chis, signs)
+            if good is None:
+                return None, 'a residuosity decision could not be resolved'
+    return False, 'no assignment of characters / root signs satisfies the path condition'
+
+
+def check_sqrt(ck, by):
+    src = 'src/fields/fq2.rs:sqrt'
+    # ---- soundness, all leaves of the general task: Some(s) => s^2 = x (enforced by a decision on the leaf)
+    for li, lf in enumerate(by.get('fq2_sqrt', [])):
+        nm = 'A-fq2_sqrt-sound#%d' % li
+        if lf.panic:
+            ck.fail(nm, 'Fq2::sqrt never panics', lf.panic, [src], replay=dict(kind='sqrt', family='general'))
+            continue
+        outs = lf.outs()
+        if outs[0] != 1:
+            continue
+        S = from_fq2(outs[1:3])
+        X = t2('x')
+        D = coords(S * S - X, 2)
+        trues = [d[1] for d in lf.decisions() if d[0] == 'eq' and d[2]]
+        zero_leaf = all(o.is_zero() for o in outs[1:3])
+        okc = []
+        for dcomp in D:
+            okc.append(dcomp.is_zero() or any(unit_multiple(dcomp, t) for t in trues) or
+                       all(r.is_zero() for r in reduce_facts(apply_sub(dcomp, solve_subst(lf.decisions())), lf.dag.facts, solve_subst(lf.decisions()))))
+        (ck.ok if all(okc) else ck.fail)(nm, 'Fq2::sqrt: Some(s) only with s*s = x', 'the equality s^2 = x is decided true on this leaf: %s' % okc, [src])
+    # ---- completeness on stratified families
+    fams = [
+        ('fq2_sqrt_of_square', [V('c0'), V('c1'), V('c0') * V('c0') + V('c1') * V('c1') * 2], [(1, 1, 1), (1, -1, 1), (-1, 1, 1), (-1, -1, 1), (1, 1, -1), (1, -1, -1), (-1, 1, -1), (-1, -1, -1)], True, 'x = (c0 + c1 u)^2 with c0, c1 generic non-zero'),
+        ('fq2_sqrt_of_real', [V('t')], [(1,)], True, 'x = a real, a any non-zero element of F_q (residue a = t^2 or non-residue a = 2 t^2, either root returned by Fq::sqrt)'),
+        ('fq2_sqrt_of_imag', [V('t')], [(1,)], False, 'x = b u purely imaginary, b != 0 (norm 2 b^2 is a non-residue: never a square)'),
+    ]
+    t2_ = V('t') * V('t')
+    PRES = {'fq2_sqrt_of_real': [{'a': t2_}, {'a': t2_ * 2}], 'fq2_sqrt_of_imag': [{'b': t2_}, {'b': t2_ * 2}], 'fq2_sqrt_of_square': [None]}
+    assert legendre(2) == -1
+    for task, atoms, chis, expect_some, desc in fams:
+        seen_feasible = 0
+        for li, lf in enumerate(by.get(task, [])):
+            nm = 'A-%s#%d' % (task, li)
+            if lf.panic:
+                ck.fail(nm, 'no panic', lf.panic, [src], replay=dict(kind='sqrt', family=task))
+                continue
+            outs = lf.outs()
+            some = outs[0] == 1
+            # generic stratum only: a leaf that needs an atom to vanish belongs to another family
+            special = False
+            fam_atoms = atoms if task == 'fq2_sqrt_of_square' else [V('a' if task == 'fq2_sqrt_of_real' else 'b')]
+            for kind, p, o in lf.decisions():
+                if kind == 'eq' and o and not p.is_zero():
+                    d = decomp(p, fam_atoms) if not (p.vars() & set(v for f in lf.dag.facts for v in [f[1]])) else None
+                    if d is not None and d[0] != 0:
+                        special = True
+            if special:
+                ck.ok(nm, 'Fq2::sqrt on %s' % desc, 'leaf requires an atom to vanish: outside the generic stratum (covered by the other families)', [src])
+                continue
+            feas, why = sqrt_leaf_feasible(lf, atoms, chis, PRES[task])
+            stmt = 'Fq2::sqrt is %s on %s' % ('complete (never None)' if expect_some else 'None', desc)
+            if feas is None:
+                ck.fail(nm, stmt, 'leaf feasibility unresolved: ' + why, [src], status='inconclusive')
+            elif not feas:
+                ck.ok(nm, stmt, 'leaf infeasible: ' + why, [src])
+            else:
+                seen_feasible += 1
+                if some == expect_some:
+                    ck.ok(nm, stmt, 'feasible leaf (%s) returns %s' % (why, 'Some' if some else 'None'), [src])
+                else:
+                    ck.fail(nm, stmt, 'feasible leaf (%s) returns %s' % (why, 'Some' if some else 'None'), [src], replay=dict(kind='sqrt', family=task))
+        if not seen_feasible:
+            ck.fail('A-%s-coverage' % task, 'at least one feasible leaf', 'no feasible leaf found', [src], status='inconclusive')
